@@ -527,6 +527,13 @@ def rule_checked_calls(F, ev, R, config, rule="R-CHECKED-CALLS"):
     for bi, si, s in hb.stmts():
         if s["k"] == "assign" and s["rv"]["k"] == "agg" and s["rv"].get("variant") == "UnexpectedFunctionOutput":
             rels, raw = g.relations_at(bi)
+            rels = list(rels)
+            only_if = returned_only_if(ev, hb, env, s["place"]["l"]) if not s["place"]["proj"] else None
+            for t_, tr in (only_if or []):
+                for t2, tr2 in expand_bool(t_, tr):
+                    r_ = canon_rel(t2, tr2)
+                    if r_:
+                        rels.append(r_)
             ok = any(r[0] == "Ne" for r in rels)
             R.add(rule, config, hb.key, "Err⇔len differs", ok, "" if ok else "length error produced without the lengths differing", s.get("span"))
     # callers propagate the error (with ?, by returning the Result, through combinators); a function that simply returns the
@@ -668,6 +675,14 @@ def rule_model_guards(F, ev, R, config, rule="R-MODEL-GUARDS"):
                                 sites.append((henv.body, henv, bi, s))
                 for sb, senv, bi, s in sites:
                     rels, raw = context_relations(ev, senv, bi)
+                    rels = list(rels)
+                    # an error value built eagerly as the argument of `cond.then_some(()).ok_or(E)`: handed on only when ¬cond
+                    only_if = returned_only_if(ev, sb, senv, s["place"]["l"]) if not s["place"]["proj"] else None
+                    for t_, tr in (only_if or []):
+                        for t2, tr2 in expand_bool(t_, tr):
+                            r_ = canon_rel(t2, tr2)
+                            if r_:
+                                rels.append(r_)
                     ok = any(r[0] == "Le" and r[2] == ("param", b.key, 2) and r[1][0] == "call" and r[1][1].endswith("::len") and r[1][3][0] == ("field", me, sm["names"]) for r in rels)
                     R.add(rule, config, b.key, "OutOfBounds⇔index≥|names|", ok, "" if ok else "index error produced without index ≥ number of parameters", s.get("span"))
     R.floor(rule, config, 4, "eval guard, deriv guards, error mapping")
